@@ -213,10 +213,10 @@ def opsAlg : List (String × OpFn) := [
       let y ← cx
       let f := Spinor.apply j ⟨x, y⟩; pure (flat f.x ++ flat f.y)),
   -- sqrt / polar / eigen
-  ("q.sqrt", do let h ← quat; let r ← liftR (Quat.sqrtH ratSqrt h); pure (flat r)),
+  ("q.sqrt", do let h ← quat; let r ← liftR (Quat.sqrtH ratSqrt ordRat h); pure (flat r)),
   ("j.polar", do
       let j ← jones
-      let (d, h, u) ← liftR (polar cxSqrt ratSqrt j)
+      let (d, h, u) ← liftR (polar cxSqrt ratSqrt ordRat j)
       pure (flat d ++ flat h ++ flat u)),
   ("q.eigen", do let h ← quat; let r ← liftR (Quat.eigenH ratSqrt (fun x => x < 0) h); pure (flat r)),
   -- Minkowski
